@@ -157,7 +157,14 @@ func c16ModuleProject(variant int) *execSpec {
 func c16Polluter(t *zsim.Tape) *execSpec {
 	gs := c16Globals()
 	guard := "\n\n拦截异常：\n\t输出“挡住”\n"
-	switch t.Draw(14) {
+	switch t.Draw(15) {
+	case 14: // a redefined constructor whose body declares things of its own, and is then used
+		g := append(gs, "探针异常")[t.Draw(len(gs)+1)]
+		imp := ""
+		if g == "探针异常" {
+			imp = "导入《@探针》\n\n"
+		}
+		return &execSpec{ID: "ctor-with-declarations:" + g, Mode: "script", Main: imp + fmt.Sprintf("如何新建%s？\n\t输入文\n\t如何加标记？\n\t\t输出“标”\n\t定义临时类：\n\t\t其名 = “t”\n\t令记 = 文\n\n令错 = （新建%s：“x”）\n输出“污染者结束”%s", g, g, guard)}
 	case 13: // the input-variable text is evaluated against predefined values too
 		return &execSpec{ID: "varinput-mutates", Mode: "script", VarInput: pick(t, []string{"甲 = 以数值（自增：4）", "甲 = 以数值（自减：1）", "甲 = 数值"}), Main: "输入甲\n令乙 = 以甲（自增：2）\n输出“污染者结束”" + guard}
 	case 11, 12: // every mutating method x every property of a fresh object of a library class (also via a local copy / an item)
@@ -249,7 +256,7 @@ type c16Scenario struct {
 }
 
 func runC16(t *zsim.Tape, cfg *hlib.Config) *hlib.Outcome {
-	enumerating := cfg.Int("enum", 0) > 0 && cfg.RunIndex < len(c16EnumPolluters())*c16Victims
+	enumerating := cfg.Int("enum", 0) > 0 && cfg.RunIndex < len(c16EnumPolluters())*(c16Victims+1)
 	if t.Draw(3) == 2 && !enumerating {
 		return c16PartB(t, cfg)
 	}
@@ -279,6 +286,13 @@ func c16EnumPolluters() []*execSpec {
 			}
 		}
 	}
+	for _, c := range append(append([]string{}, gs...), "探针异常", "探针箱") {
+		imp := ""
+		if strings.HasPrefix(c, "探针") {
+			imp = "导入《@探针》\n\n"
+		}
+		out = append(out, &execSpec{ID: "ctor-with-declarations:" + c, Mode: "script", Main: imp + fmt.Sprintf("如何新建%s？\n\t输入文\n\t如何加标记？\n\t\t输出“标”\n\t定义临时类：\n\t\t其名 = “t”\n\t令记 = 文\n\n令错 = （新建%s：“x”）\n输出“污染者结束”%s", c, c, guard)})
+	}
 	for _, c := range []string{"探针异常", "探针箱"} {
 		out = append(out, &execSpec{ID: "ctor:" + c, Mode: "script", Main: fmt.Sprintf("导入《@探针》\n\n如何新建%s？\n\t输入文\n\t（显示：“构造器被替换”）\n\n输出“污染者结束”%s", c, guard)})
 	}
@@ -296,14 +310,27 @@ func c16PartA(t *zsim.Tape, cfg *hlib.Config) *hlib.Outcome {
 		sc.Shared = append(sc.Shared, t.Draw(2) == 0)
 	}
 	sc.Victim = c16Victim(t)
+	if n > 0 && t.Draw(4) == 3 {
+		// the victim is one of the polluters again: any program must behave the second time in a
+		// process exactly as it does the first time after a restart
+		again := *sc.History[t.Draw(n)]
+		again.ID = "again:" + again.ID
+		sc.Victim = &again
+	}
 	sc.Shared = append(sc.Shared, t.Draw(2) == 0)
 	if cfg.Int("enum", 0) > 0 {
 		// the first runs enumerate (single polluter) x (victim kind) completely
 		ps := c16EnumPolluters()
-		if cfg.RunIndex < len(ps)*c16Victims {
-			p := ps[cfg.RunIndex/c16Victims]
+		if cfg.RunIndex < len(ps)*(c16Victims+1) {
+			p := ps[cfg.RunIndex/(c16Victims+1)]
 			sc.History, n = []*execSpec{p}, 1
-			sc.Victim = c16Victim(zsim.ReplayTape([]uint32{uint32(cfg.RunIndex % c16Victims)}))
+			if vi := cfg.RunIndex % (c16Victims + 1); vi < c16Victims {
+				sc.Victim = c16Victim(zsim.ReplayTape([]uint32{uint32(vi)}))
+			} else {
+				again := *p
+				again.ID = "again:" + p.ID
+				sc.Victim = &again
+			}
 			sc.Shared = []bool{cfg.RunIndex%2 == 0, (cfg.RunIndex/2)%2 == 0}
 			sc.Part = "A:history(enumerated polluter x victim)"
 			out.Note["enumerated-(polluter,victim)-pairs"]++
